@@ -5,10 +5,14 @@ open IrVerif.Clone
 #print axioms C13_fresh_model
 #print axioms C13_closed
 #print axioms C13_closed_model
+#print axioms C13_closed_outer
+#print axioms C13_raises_iff_inputs
 #print axioms C13_clone_pure
 #print axioms C13_clone_pure_model
 #print axioms C13_frame
+#print axioms C13_frame_weak
 #print axioms C13_frame_clone_edited
+#print axioms C13_frame_clone_edited_outer
 #print axioms C13_frame_function
 #print axioms C13_functionalize
 #print axioms C13_frame_orig_edited
@@ -16,5 +20,4 @@ open IrVerif.Clone
 #print axioms C13_faithful
 #print axioms C13_faithful_function
 #print axioms C13_faithful_model
-#print axioms C13_faithful_serialize
-#print axioms C13_closed_outer
+#print axioms C13_faithful_observe
